@@ -341,9 +341,81 @@ fn adjacent_command_defaulted_word(case: &mut Case) {
     }
 }
 
+/// `construct!(--alpha A, --beta B).guard(..).fallback(..).many()`: a later block that is complete
+/// on the line and fails the group's guard fails the run with the guard's message; the default of
+/// the group is for a block that is absent
+fn later_block_fails_group_guard(case: &mut Case) {
+    let mut rng = case.rng(6);
+    let arg = |id: Id, l: &str| {
+        Spec::Item(Item {
+            id,
+            names: Names::long(l),
+            help: None,
+            leaf: Leaf::Arg {
+                ty: Ty::U32,
+                metavar: format!("M{}", id),
+                adjacent: false,
+            },
+        })
+    };
+    let group = Spec::Seq(vec![arg(1, "alpha"), arg(2, "beta")]);
+    let step = if rng.chance(1, 2) { W::Guard } else { W::ParseStep };
+    let is_guard = step == W::Guard;
+    let guarded = Spec::wrap(step, 3, group);
+    let dflt = Spec::wrap(
+        if rng.chance(1, 2) { W::Fallback } else { W::FallbackWithOk },
+        4,
+        guarded,
+    );
+    let rep = match rng.below(3) {
+        0 => W::Many { catch: false },
+        1 => W::Some_ { catch: false },
+        _ => W::Collect { catch: false },
+    };
+    let root = Spec::Seq(vec![Spec::wrap(rep, 5, dflt)]);
+    let b = Bench::new(case, OptSpec::plain(root));
+    // the value that trips the step sits in the second or third block
+    let bad = if is_guard { "900001" } else { "800001" };
+    let n = rng.range(2, 3);
+    let at = rng.range(1, n - 1);
+    let mut argv: Vec<Vec<u8>> = Vec::new();
+    for k in 0..n {
+        argv.push(b"--alpha".to_vec());
+        argv.push(if k == at { bad.as_bytes().to_vec() } else { format!("{}", k + 1).into_bytes() });
+        argv.push(b"--beta".to_vec());
+        argv.push(format!("{}", k + 10).into_bytes());
+    }
+    let msg = if is_guard { guard_msg(3) } else { parse_msg(3) };
+    let class = "invalid:group-step:later-block-of-defaulted-repeated-group";
+    let (out, _) = b.run(case, &argv, class);
+    match &out {
+        Outcome::Stderr { text } if text.contains(&msg) => case.rep.count("message-present"),
+        Outcome::Panic(_) | Outcome::FuelExhausted => {}
+        Outcome::Stderr { .. } => case.rep.violation(
+            "message-lost:group-step:later-block-of-defaulted-repeated-group",
+            "message",
+            case.index,
+            b.detail(&argv, class, &format!("Stderr mentioning {:?}", msg), &out),
+        ),
+        other => case.rep.violation(
+            &format!(
+                "invalid-value-masked:group-step:later-block-of-defaulted-repeated-group:{}",
+                other.class()
+            ),
+            "masking",
+            case.index,
+            b.detail(&argv, class, &format!("Stderr mentioning {:?}", msg), &out),
+        ),
+    }
+}
+
 pub fn run_case(case: &mut Case) {
     if case.index % 16 == 7 {
-        adjacent_command_defaulted_word(case);
+        if (case.index / 16) % 2 == 0 {
+            adjacent_command_defaulted_word(case);
+        } else {
+            later_block_fails_group_guard(case);
+        }
         return;
     }
     let mut rng = case.rng(0);
